@@ -4,16 +4,16 @@ per-system generation / oracle / projection in lib/c16_<system>.py."""
 import json, os, re
 from concurrent.futures import ThreadPoolExecutor
 import vlib
-import c16_dqueue, c16_shcounter, c16_loadbalancer, c16_gcounter, c16_proxy
+import c16_dqueue, c16_shcounter, c16_loadbalancer, c16_gcounter, c16_proxy, c16_shopcart
 
 ID = "C16"
 THEOREMS = "Properties/C16.v"
 HARNESS = ["c16"]
 LEVEL = "proof"
 READY = True
-SYSTEMS = [c16_dqueue, c16_shcounter, c16_loadbalancer, c16_gcounter, c16_proxy]
+SYSTEMS = [c16_dqueue, c16_shcounter, c16_loadbalancer, c16_gcounter, c16_proxy, c16_shopcart]
 # walks per system: quick, thorough
-BUDGET = {"dqueue": (45, 2500), "shcounter": (25, 800), "loadbalancer": (35, 2000), "gcounter": (35, 1500), "proxy": (35, 1500)}
+BUDGET = {"dqueue": (40, 2500), "shcounter": (20, 800), "loadbalancer": (30, 2000), "gcounter": (30, 1500), "proxy": (30, 1500), "shopcart": (25, 1200)}
 
 TRUSTED_BASE = [
     "Coq 8.16.1 kernel (coqc, full .vo build); vm_compute used in the non-vacuity Examples and in the correspondence evaluation",
@@ -146,11 +146,17 @@ MANIFEST = {
     "category": "proof",
     "technique": "Coq proofs (inductive invariants over one typed transition system per generated system, any instance size) + step-level differential "
                  "correspondence of each model with the generated Go archetypes (steplib)",
-    "text": ("PARTIAL — systems covered so far: dqueue. Theorems in coq/Properties/C16.v, closed under the global context, for every instance size and every "
-             "event list (= every interleaving): dqueue_buffer_bound, dqueue_exactly_once_in_order (per consumer: production indices sent = consumed ++ in "
-             "flight; indices distinct; consumed only by the requester, never by two consumers), dqueue_served_in_request_order, dqueue_delivered_to_requesting, "
-             "dqueue_item_values, dqueue_type_safe. Tie: the generated archetypes run under the real Run loop one attempt at a time over spec-state resources; "
-             "the model runs the same schedule in Coq; every post-state and outcome compared; implementation-side oracles per system on the Go observations."),
-    "level_note": ("Systems of the statement not yet modelled are not covered (see notes/C16.md). Trusted: Coq kernel; hand-written models (differential tie); "
-                   "spec-state resources replacing the deployment resources."),
+    "text": ("PARTIAL. Theorems in coq/Properties/C16.v, all closed under the global context, for every instance size and every event list (= every "
+             "interleaving and either/with resolution). dqueue (complete): buffer bound; per consumer production indices sent = consumed ++ in flight, indices "
+             "distinct, consumed only by the requester and never by two consumers; k-th item goes to the k-th received request; an item is in flight only to a "
+             "consumer waiting at c2; type safety. shcounter (complete, cntr atomic by assumption = C11): cntr counts the nodes past update, never decreases, never "
+             "exceeds NUM_NODES, equals NUM_NODES once a node finished and stays, bounded progress. gcounter (complete): StrongConvergence, equal knowledge => equal "
+             "reads, every counter component and the read value monotone, read <= NUM_NODES, assertion free. loadbalancer (_partial): BuffersOk, assertion/type freedom, "
+             "message well-formedness proved; 'every request answered by exactly one server' modelled with ghost history and checked by oracle + tie, proof open. "
+             "proxy (_partial): ProxyOK under the perfect failure detector and NUM_SERVERS < 100, FAIL reported only if all servers stopped, FD accuracy proved; "
+             "assertion freedom open (oracle only). shopcart, nestedcrdtimpl, replicatedkv and the *.gotests programs: NOT covered yet. Tie: the generated archetypes "
+             "run under the real Run loop one attempt at a time over spec-state resources (the specs' mapping macros); each model runs the same schedule in Coq; every "
+             "post-state and outcome compared; implementation-side oracles per system on the Go observations."),
+    "level_note": ("Partial as stated per system; systems not modelled are not covered. Trusted: Coq kernel; hand-written models (differential tie: 150 quick / 8300 thorough "
+                   "walks + corpus); spec-state resources replacing the deployment resources; gcounter's merge process is a Go transcription of the spec process."),
 }
